@@ -700,10 +700,161 @@ fn gen_time(em: &mut Emitter) {
     }
 }
 
+
+// ------------------------------------------------------------------------------------------------
+// audit (YC): Time::parse with an explicit format against the model (`tmp`), Debug / Display of Time (`tmdbg`),
+// Debug / String cast of TimeDelta (`tddbg`), Debug of DateTime incl. NaT and unrepresentable instants (`dtdbg`)
+
+const TIME_FMTS: [&str; 4] = ["%H:%M:%S", "%H:%M:%S.%f", "%H%M%S", "%H:%M"];
+
+fn time_fmt_case(em: &mut Emitter, k: usize, s: &str, kind: &str) {
+    let c = time_cell(s, Some(TIME_FMTS[k]));
+    let out = match c { Cell::Int(_) => "ok", Cell::Err => "err", _ => "panic" };
+    let nt = if s.is_empty() { " nt=0" } else { "" };
+    let tags = format!("fn=Time::parse+fmt fmt={} kind={} out={}{}", k, kind, out, nt);
+    let desc = format!("Time::parse({}, Some({:?}))", show(s), TIME_FMTS[k]);
+    em.case("exact", &tags, &desc, || format!("tmp {} {}", k, coq_str(s)), || vec![c]);
+}
+
+fn gen_audit(em: &mut Emitter) {
+    let thorough = em.thorough();
+    let mut rng = Rng::new(em.args.seed.wrapping_mul(0x3007).wrapping_add(11));
+    // (a) Time::parse(s, Some(fmt)): rendered valid times, the leap second, out-of-range fields, mutations
+    let n_v = if thorough { 1500 } else { 160 };
+    for i in 0..n_v {
+        let (h, m, s) = match i {
+            0 => (0, 0, 0),
+            1 => (23, 59, 59),
+            2 => (23, 59, 60),
+            3 => (12, 0, 60),
+            4 => (24, 0, 0),
+            5 => (0, 60, 0),
+            6 => (0, 0, 61),
+            _ => (rng.below(24), rng.below(60), rng.below(61)),
+        };
+        let ns: u64 = match i % 4 { 0 => 0, 1 => 999_999_999, 2 => rng.below(1000) as u64 * 1_000_000, _ => rng.next() % 1_000_000_000 };
+        let texts = [
+            format!("{:02}:{:02}:{:02}", h, m, s),
+            format!("{:02}:{:02}:{:02}.{:09}", h, m, s, ns),
+            format!("{:02}{:02}{:02}", h, m, s),
+            format!("{:02}:{:02}", h, m),
+        ];
+        for k in 0..4 {
+            time_fmt_case(em, k, &texts[k], if s == 60 { "leap" } else { "rendered" });
+        }
+        // a text of one format under another format, and a short fraction ("%f" is a nanosecond COUNT: ".5" is 5 ns)
+        time_fmt_case(em, 0, &texts[1], "cross");
+        time_fmt_case(em, 1, &format!("{:02}:{:02}:{:02}.{}", h, m, s, ns % 1000), "shortfrac");
+        time_fmt_case(em, 2, &texts[0], "cross");
+    }
+    let n_m = if thorough { 6000 } else { 600 };
+    for i in 0..n_m {
+        let base = match i % 3 {
+            0 => format!("{:02}:{:02}:{:02}", rng.below(26), rng.below(62), rng.below(62)),
+            1 => format!("{:02}:{:02}:{:02}.{:09}", rng.below(24), rng.below(60), rng.below(61), rng.next() % 1_000_000_000),
+            _ => format!("{:02}{:02}{:02}", rng.below(24), rng.below(60), rng.below(61)),
+        };
+        let s = mutate(&mut rng, &base, &DT_MUT_ALPHA);
+        time_fmt_case(em, i % 4, &s, "mutated");
+    }
+    // (a') the value Time::parse returns for a leap second lies outside the day: the Timelike getters panic on it
+    for text in ["23:59:60", "00:00:60", "12:34:60", "23:59:59", "12:34:56", "00:00:00"] {
+        let desc = format!("Time::parse({:?}, Some(\"%H:%M:%S\")) then .hour()", text);
+        em.case("exact", &format!("fn=Time::parse+getter leap={}", text.ends_with("60") as u8), &desc,
+            || format!("tmleap {}", coq_str(text)), || {
+            use tevec::export::chrono::Timelike;
+            match Time::parse(text, Some("%H:%M:%S")) {
+                Err(_) => vec![Cell::Err],
+                Ok(t) => {
+                    let mut c = vec![Cell::Int(t.0 as i128)];
+                    match guarded(move || t.hour()) {
+                        Ok(h) => c.push(Cell::Int(h as i128)),
+                        Err(k) => c.push(Cell::Panic(k)),
+                    }
+                    c
+                }
+            }
+        });
+    }
+    // (b) Debug / Display of Time (impl_time.rs `fmt`): "Time(<i64>)", both the same text; and the text is not a time
+    let mut ts: Vec<i64> = vec![0, 1, -1, 9, 10, -10, 86_399_999_999_999, 86_400_000_000_000, i64::MIN, i64::MAX, i64::MIN + 1];
+    for _ in 0..(if thorough { 200 } else { 30 }) {
+        ts.push(rng.next() as i64);
+        ts.push((rng.next() % 86_400_000_000_000) as i64);
+    }
+    for t in ts {
+        let desc = format!("format!(\"{{:?}}\" / \"{{}}\", Time({})) [Time::parse of that text must be Err]", t);
+        em.case("exact", "fn=Time::fmt", &desc, || format!("tmdbg {}", coq_z(t as i128)), || {
+            match guarded(move || {
+                let tm = Time::from_i64(t);
+                let (a, b) = (format!("{:?}", tm), format!("{}", tm));
+                let back = Time::parse(&b, None).is_err() && b.parse::<Time>().is_err();
+                (a, b, back)
+            }) {
+                Err(k) => vec![Cell::Panic(k)],
+                Ok((a, b, back)) => {
+                    let mut c: Vec<Cell> = cps(&a).into_iter().map(Cell::Int).collect();
+                    c.push(Cell::Sep);
+                    c.extend(cps(&b).into_iter().map(Cell::Int));
+                    if !back { c.push(Cell::Uninit) }
+                    c
+                }
+            }
+        });
+    }
+    // (c) Debug of TimeDelta = Cast<String>; the text is not a duration (TimeDelta::parse of it is Err)
+    let mut tds: Vec<(i32, i128)> = vec![(0, 0), (14, -1_500_000_000), (-3, 1), (i32::MIN, 0), (i32::MAX, 999_999_999),
+        (0, i64::MAX as i128 * 1_000_000), (0, -(i64::MAX as i128) * 1_000_000), (1, -1), (0, -1_000_000_000)];
+    for _ in 0..(if thorough { 200 } else { 30 }) {
+        tds.push((rng.range(-2400, 2400) as i32, (rng.next() as i64) as i128));
+    }
+    for (m, ns) in tds {
+        let desc = format!("format!(\"{{:?}}\", TimeDelta{{months:{}, inner:{} ns}}) = cast::<String>() [TimeDelta::parse of that text must be Err]", m, ns);
+        em.case("exact", "fn=TimeDelta::fmt", &desc, || format!("tddbg {} {}", coq_z(m as i128), coq_z(ns)), || {
+            match guarded(move || {
+                let secs = ns.div_euclid(1_000_000_000) as i64;
+                let nanos = ns.rem_euclid(1_000_000_000) as u32;
+                let td = TimeDelta { months: m, inner: tevec::export::chrono::Duration::new(secs, nanos).unwrap() };
+                let a = format!("{:?}", td);
+                let b: String = td.cast();
+                let back = TimeDelta::parse(&a).is_err();
+                (a, b, back)
+            }) {
+                Err(k) => vec![Cell::Panic(k)],
+                Ok((a, b, back)) => {
+                    let mut c: Vec<Cell> = cps(&a).into_iter().map(Cell::Int).collect();
+                    if a != b || !back { c.push(Cell::Uninit) }
+                    c
+                }
+            }
+        });
+    }
+    // (d) Debug of DateTime at every unit: NaT, unrepresentable instants (panic), ordinary instants
+    for u in 0..4 {
+        let mut xs: Vec<i64> = vec![i64::MIN, i64::MIN + 1, i64::MAX, 0, -1, 1];
+        for _ in 0..(if thorough { 60 } else { 10 }) {
+            xs.push(rng.next() as i64);
+            xs.push((rng.next() % 4_000_000_000) as i64 * per_sec(u) as i64 / 2);
+        }
+        for x in xs {
+            let desc = format!("format!(\"{{:?}}\", DateTime::<{}>::new({}))", UNIT_NAMES[u], x);
+            let nt = if x == i64::MIN { " nt=0" } else { "" };
+            em.case("exact", &format!("fn=DateTime::fmt unit={}{}", UNIT_NAMES[u], nt), &desc,
+                || format!("dtdbg {} {}", u, coq_z(x as i128)), || {
+                match dt_debug(u, x) {
+                    Err(k) => vec![Cell::Panic(k)],
+                    Ok(a) => cps(&a).into_iter().map(Cell::Int).collect(),
+                }
+            });
+        }
+    }
+}
+
 fn main() {
     let mut em = Emitter::new();
     gen_td(&mut em);
     gen_dt(&mut em);
     gen_time(&mut em);
+    gen_audit(&mut em);
     em.finish();
 }
